@@ -127,6 +127,8 @@ func (n *FNode) Subscribe(channel string) *SubRec {
 	sr := &SubRec{N: n, ID: len(n.Subs), Channel: channel, Sub: sub}
 	w := n.W
 	sr.remove = sub.AddHandler(func(m pubsub.Message) {
+		// a slow handler: scheduling point inside the callback (armed per world)
+		w.S.Yield("harness/handler", n.Name+"/"+channel)
 		dsim.EventSeq++
 		g := GotMsg{From: w.Net.Names[m.GetFrom().String()], Data: string(m.GetData()), Seq: dsim.EventSeq, Step: w.S.Step}
 		sr.Got = append(sr.Got, g)
